@@ -84,6 +84,7 @@ __CPROVER_assigns(tlBuffers, tlCount, g_state)
 
 /* ---------------- (c) backingStoreLock ---------------- */
 uint32_t g_lock;                 /* globals.backingStoreLock */
+/* assumption: the 32-bit lock counter does not wrap (every contending thread bumps it at most once per wait) */
 bool g_own_lock;                 /* ghost: this thread holds the lock */
 bool g_touched_unlocked;         /* backingStore touched without holding the lock */
 bool g_bad_transfer;
@@ -123,8 +124,51 @@ __CPROVER_ensures(!g_touched_unlocked && !g_bad_transfer && !g_own_lock)
 __CPROVER_assigns(g_lock, g_own_lock, g_touched_unlocked, g_bad_transfer, g_other_holds, g_last_mo)
 #include "SBA_bytesAllocated.body.inc"
 
+/* ---------------- grabFromCentralStore: refill of the thread-local stack ---------------- */
+#define kChunkSize ((size_t)KCHUNK)
+#define kMallocBytes ((size_t)KMALLOC)
+#define kBuffersPerMalloc ((size_t)KPERMALLOC)
+#define kNumToPush (kBuffersPerMalloc - kIdealNumTLBuffers)
+bool g_slot_valid[KIDEAL];        /* ghost: slot k of the caller's buffer array holds a free block that now belongs to this thread */
+size_t g_slab_base; bool g_slab_fresh; size_t g_pushed_central; bool g_bad_block;
+size_t G_try_dequeue_bulk(size_t* buffers, size_t count)
+/* central store axiom: returns how many free blocks it moved into buffers[0..RV), RV <= count */
+__CPROVER_ensures(RV <= count && (g_k < RV ==> g_slot_valid[g_k]) && (g_k >= RV ==> g_slot_valid[g_k] == __CPROVER_old(g_slot_valid[g_k])))
+__CPROVER_assigns(g_slot_valid, __CPROVER_object_upto(buffers, count * sizeof(size_t)))
+;
+static uint32_t A_FETCH_ADD_lock(uint32_t* x, uint32_t v, int mo) { others_act_lock(); A_NOTE(mo); uint32_t old = *x; __CPROVER_assume(old + v > old); *x = old + v;
+  if (old == 0) { if (g_other_holds) g_touched_unlocked = 1; g_own_lock = 1; if (!MO_HAS_ACQUIRE(mo)) g_bad_transfer = 1; } return old; }
+static uint32_t A_LOAD_lock(const uint32_t* x, int mo) { others_act_lock(); A_NOTE(mo); return *x; }
+static void G_this_thread_yield(void) { others_act_lock(); }
+static size_t G_alignedMalloc_slab(size_t bytes, size_t align) {
+  __CPROVER_assert(bytes == kMallocBytes && align == kChunkSize, "slab of kMallocBytes aligned to the chunk size");
+  size_t b = nondet_size_t(); __CPROVER_assume(b != 0 && b % kChunkSize == 0 && b <= (size_t)-1 - kMallocBytes);
+  g_slab_base = b; g_slab_fresh = 1; return b;
+}
+static void G_backingStore_push(size_t slab) { if (!g_own_lock || g_other_holds) g_touched_unlocked = 1; }
+static void G_topush_put(size_t i, size_t addr) {
+  /* chunk i of the fresh slab goes to the central store */
+  if (!(i < kNumToPush && addr == g_slab_base + i * kChunkSize)) g_bad_block = 1;
+}
+static void G_enqueue_bulk(size_t n) { if (n != kNumToPush) g_bad_block = 1; g_pushed_central += n; }
+static void G_buffers_put(size_t* buffers, size_t i, size_t addr) {
+  /* chunks kNumToPush.. of the fresh slab go to this thread: aligned, inside the slab, disjoint from the ones pushed to the central store */
+  if (!(i < kIdealNumTLBuffers && addr == g_slab_base + (kNumToPush + i) * kChunkSize && addr % kChunkSize == 0 && addr + kChunkSize <= g_slab_base + kMallocBytes)) g_bad_block = 1;
+  buffers[i] = addr; g_slot_valid[i] = 1;
+}
+size_t SBA_grabFromCentralStore(size_t* buffers)
+__CPROVER_requires(__CPROVER_is_fresh(buffers, KIDEAL * sizeof(size_t)) && g_k < kIdealNumTLBuffers && !g_slot_valid[g_k])
+__CPROVER_requires(!g_own_lock && !g_touched_unlocked && !g_bad_transfer && !g_bad_block && (g_other_holds ==> g_lock >= 1) && (!g_other_holds ==> g_lock == 0))
+/* between 1 and kIdealNumTLBuffers blocks, and every one of the first RV slots holds a free block owned by this thread */
+__CPROVER_ensures(RV >= 1 && RV <= kIdealNumTLBuffers && (g_k < RV ==> g_slot_valid[g_k]))
+__CPROVER_ensures(!g_touched_unlocked && !g_bad_transfer && !g_bad_block && !g_own_lock)
+__CPROVER_assigns(g_slot_valid, __CPROVER_object_whole(buffers), g_lock, g_own_lock, g_touched_unlocked, g_bad_transfer, g_other_holds, g_last_mo, g_slab_base, g_slab_fresh, g_pushed_central, g_bad_block)
+#include "SBA_grabFromCentralStore.body.inc"
+
 #ifdef VERIF_CBMC
 size_t nondet_size_t(void);
+void h_SBA_grabFromCentralStore(void) { size_t* b; g_k = nondet_size_t(); for (size_t j = 0; j < KIDEAL; ++j) g_slot_valid[j] = 0; g_own_lock = 0; g_touched_unlocked = 0; g_bad_transfer = 0; g_bad_block = 0; g_pushed_central = 0;
+  g_other_holds = nondet_bool(); g_lock = g_other_holds ? 1 + (nondet_u32() % 100) : 0; SBA_grabFromCentralStore(b); }
 static void mk_stack(void) {
   tlCount = nondet_size_t(); __CPROVER_assume(tlCount < kMaxNumTLBuffers);
   g_k = nondet_size_t(); g_double_handout = 0; g_bad_free = 0;
